@@ -163,12 +163,28 @@ def run(run, tier, seed):
     tmp = vlib.shm_dir("c20")
     try:
         nruns = 6 if tier == "quick" else 40
-        for ri in range(nruns + 6):
+        for ri in range(nruns + (6 if (tier == "quick" and not os.environ.get("VERIF_C20_CAP")) else 8)):
             k = rng.choice([9, 15, 21, 31, 33, 41]) if ri else 31
             rc = ri % 3 != 0
             cov = rng.randint(10, 30) if tier == "quick" else rng.randint(10, 80)
             glen = int(max(600, 140 * math.sqrt(cov))) + rng.randint(0, 300)
-            if ri >= nruns + 3:
+            if ri >= nruns + 6:
+                # (thorough) a high-copy element: 55 split k-mers seen 1100 times each - above the 1000 the table can hold; they
+                # belong to no row. Simulated reads plus 1100 copies of one element; data sets are drawn until the fit converges
+                # (up to 8 tries), so that a table is printed to compare.
+                k, rc = 21, (ri % 2 == 0)
+                for _try in range(8):
+                    reads = simulate_reads(rng, 700, 25, 0.01, k)
+                    reads += [gen.rand_seq(rng, k + 54)] * 1100
+                    rng.shuffle(reads)
+                    h_ = len(reads) // 2
+                    t1, t2 = os.path.join(tmp, "try_1.fastq"), os.path.join(tmp, "try_2.fastq")
+                    write_fastq(t1, reads[:h_], ["I" * len(r) for r in reads[:h_]])
+                    write_fastq(t2, reads[h_:], ["I" * len(r) for r in reads[h_:]])
+                    if vlib.ska_cli(["cov", t1, t2, "-k", str(k)] + ([] if rc else ["--single-strand"]), timeout=300)[0] == 0:
+                        break
+                cov, glen = 25, 700
+            elif ri >= nruns + 3:
                 # the table ends inside the error tail (the coverage peak is shared by fewer than 50 k-mers per multiplicity):
                 # the cutoff is capped at the table length, and the last row (count = cutoff) is Coverage
                 k, rc = [15, 31, 9][ri - nruns - 3], True
